@@ -527,6 +527,7 @@ func runC01(c *Ctx) {
 	checkByteArrayKeySource(r, p)
 	checkElementsThroughCodec(r, p)
 	checkCountNotComparedWithBytes(r, p)
+	checkByteArrayPredicateMirror(r, p)
 	checkTrustedHelpers(r, p, []trustedHelper{{Pkg: "serializer/byteutils", Name: "ConcatBytes"}})
 	// SerializableOrderedMap (and ds.Set on top of it) encodes what OrderedMap.ForEach visits and
 	// prefixes it with Size(): chain, dictionary and size of the OrderedMap stay coupled
@@ -1221,6 +1222,74 @@ func checkMapDeterminism(r *Reporter, p *Prog) {
 	}
 }
 
+// checkByteArrayPredicateMirror: an array is written either as its raw bytes or as a sequence of
+// elements; which of the two is decided by a test on the array's type - and the decoder has to decide
+// with the SAME test, or a type on which two different tests disagree (an array of a named uint8: its
+// kind is Uint8, its slice is not assignable to []byte) is written in one form and read in the other.
+// The condition that guards the raw-bytes branch (the one that calls WriteBytes / ReadBytesInPlace) is
+// compared on both sides after resolving temporaries.
+func checkByteArrayPredicateMirror(r *Reporter, p *Prog) {
+	const rule = "mirror/byte-array-predicate"
+	info := p.Pkg(pkgSerix).TypesInfo
+	side := func(name, prim string) (string, string) {
+		fd := p.FuncDecl(pkgSerix, "API", name)
+		if fd == nil || fd.Body == nil {
+			return "", "function " + name + " not found"
+		}
+		f := newFuncCFG(p, info, fd.Body, funcKey(pkgSerix, fd))
+		// the array parameter is called "value" on both sides by position: normalise its name
+		var arr types.Object
+		for _, po := range paramObjs(info, fd) {
+			if po != nil && strings.HasSuffix(typeName(po.Type()), "reflect.Value") {
+				arr = po
+			}
+		}
+		key := ""
+		ast.Inspect(fd.Body, func(n ast.Node) bool {
+			ifs, ok := n.(*ast.IfStmt)
+			if !ok || key != "" {
+				return key == ""
+			}
+			hit := false
+			ast.Inspect(ifs.Body, func(m ast.Node) bool {
+				if c, isCall := m.(*ast.CallExpr); isCall {
+					if se, isSel := ast.Unparen(c.Fun).(*ast.SelectorExpr); isSel && se.Sel.Name == prim {
+						hit = true
+					}
+				}
+				return !hit
+			})
+			if !hit {
+				return true
+			}
+			pt, okp := f.PointOf(ifs.Cond)
+			if !okp {
+				return true
+			}
+			key = f.KeyAt(ifs.Cond, pt)
+			if arr != nil {
+				key = strings.ReplaceAll(key, arr.Name(), "<array>")
+			}
+			return false
+		})
+		if key == "" {
+			return "", "no branch that calls " + prim + " found in " + name
+		}
+		return key, ""
+	}
+	ek, ew := side("encodeArray", "WriteBytes")
+	dk, dw := side("decodeArray", "ReadBytesInPlace")
+	key := pkgSerix + ".encodeArray <-> decodeArray"
+	switch {
+	case ew != "" || dw != "":
+		r.Fail(rule, key, "-", "cannot find the raw-bytes branch on both sides ("+ew+" "+dw+")")
+	case ek != dk:
+		r.Fail(rule, key, "-", "the encoder takes the raw-bytes form of an array when "+ek+", the decoder when "+dk+": for a type on which the two tests disagree (an array of a named byte type) the bytes written are not the bytes read")
+	default:
+		r.Pass(rule, key, "-", "both sides choose the raw-bytes form by the same test: "+ek)
+	}
+}
+
 // checkCountNotComparedWithBytes: the length prefix of a sequence of objects is an element COUNT. The
 // writer accepts any count its rules allow, whatever the elements encode to - an element may encode
 // to zero bytes (an empty struct) - so the reader of the count must not reject it by comparing it
@@ -1366,6 +1435,47 @@ func checkArrayFillBounded(r *Reporter, p *Prog) {
 				}
 			}
 		}
+	}
+	// ... and the one-step form of the same copy: `dst.Set(src.Convert(dst.Type()))` - the slice-to-array
+	// conversion panics when the source is shorter than the array
+	for _, fd := range p.AllFuncDecls(pkgSerix) {
+		if fd.Body == nil || strings.HasSuffix(p.Fset.Position(fd.Pos()).Filename, "_test.go") {
+			continue
+		}
+		params := paramObjs(info, fd)
+		ast.Inspect(fd.Body, func(n ast.Node) bool {
+			c, ok := n.(*ast.CallExpr)
+			if !ok || len(c.Args) != 1 {
+				return true
+			}
+			se, ok := ast.Unparen(c.Fun).(*ast.SelectorExpr)
+			if !ok || se.Sel.Name != "Convert" || !isReflectValue(se.X) {
+				return true
+			}
+			tc, ok := ast.Unparen(c.Args[0]).(*ast.CallExpr)
+			if !ok {
+				return true
+			}
+			tse, ok := ast.Unparen(tc.Fun).(*ast.SelectorExpr)
+			if !ok || tse.Sel.Name != "Type" || !isReflectValue(tse.X) {
+				return true
+			}
+			si, di := -1, -1
+			for i, po := range params {
+				if po != nil && objOfIdent(info, se.X) == po {
+					si = i
+				}
+				if po != nil && objOfIdent(info, tse.X) == po {
+					di = i
+				}
+			}
+			if si >= 0 && di >= 0 && si != di {
+				if fn, ok := info.Defs[fd.Name].(*types.Func); ok {
+					copiers[fn] = copier{di, si}
+				}
+			}
+			return true
+		})
 	}
 	if len(copiers) == 0 {
 		r.Pass(rule, pkgSerix, "-", "no function indexes one reflect value over the length of another")
